@@ -14,5 +14,5 @@ INIT Init
 NEXT Next
 VIEW view
 INVARIANTS TypeOK IterSorted IterPositionsConsistent
-PROPERTIES SnapshotIsolation StoreChangesOnlyByWrites IterSeekIsLowerBound IterStepsAreAdjacent
+PROPERTIES DurabilityEventsAreNoOps SnapshotIsolation StoreChangesOnlyByWrites IterSeekIsLowerBound IterStepsAreAdjacent
 CHECK_DEADLOCK FALSE
